@@ -805,6 +805,8 @@ class Anf:
                 return self.pure(f"Arith.highestOne {self.go(e[2][0])}")
             if e[1] == "round_down_to_power_of_2":
                 return self.bind(f"round_down_to_power_of_2 {self.go(e[2][0])}")
+            if e[1] in getattr(self, "known_calls", ()):
+                return self.bind(f"{e[1]} " + " ".join(self.go(a) for a in e[2]))
             raise ValueError(f"call {e[1]}")
         raise ValueError(f"cannot translate {e}")
 
@@ -901,6 +903,137 @@ def gen_arith():
     o.append("end B3.Gen")
     return "\n".join(o) + "\n"
 
+
+
+# ------------------------------------------------------------------------------------------------
+# G3b: arithmetic regions inside larger functions (subtree sizing in update, reader position arithmetic)
+
+
+def translate_shrink_region(artefact, who, text, consts, wrapping, subst, init_call):
+    """`<decl> subtree_len = INIT; <decl> count_so_far = E; while (COND != 0) { subtree_len /= K; }` ->
+    a fuel loop in checked (Rust) / wrapping (C) arithmetic and the function computing the subtree length"""
+    m = re.search(r"(?:let\s+mut|size_t)\s+subtree_len\s*=\s*([^;]+);\s*(?:let|uint64_t)\s+count_so_far\s*=\s*([^;]+);\s*"
+                  r"while\s*(.+?)\s*\{\s*subtree_len\s*/=\s*(\d+)\s*;\s*\}", text, re.S)
+    if not m:
+        raise TranslationBroken(artefact, f"{who}: subtree-sizing region (subtree_len / count_so_far / while ... /= ) not found in this shape")
+    init, csf, cond, div = m.groups()
+    record_region = m.span()
+    for a, b in subst:
+        init, csf, cond = init.replace(a, b), csf.replace(a, b), cond.replace(a, b)
+    cond = cond.strip()
+    while cond.startswith("(") and match_brace(cond, 0, "(", ")") == len(cond):
+        cond = cond[1:-1].strip()
+    mc = re.match(r"^(.*)!=\s*0$", cond, re.S)
+    if not mc:
+        raise TranslationBroken(artefact, f"{who}: loop condition is not of the form `E != 0`: {cond!r}")
+    try:
+        a1 = Anf(consts, wrapping)
+        lhs = a1.go(parse_expr(mc.group(1).strip()))
+        a2 = Anf(consts, wrapping)
+        a2.known_calls = (init_call,)
+        iv = a2.go(parse_expr(init.strip()))
+        cv = a2.go(parse_expr(csf.strip()))
+    except TranslationBroken:
+        raise
+    except Exception as ex:
+        raise TranslationBroken(artefact, f"{who}: {ex}")
+    o = ["def update_shrink_loop : Nat → Nat → Nat → R Nat",
+         "  | 0, _, _ => .panic   -- out of fuel (the theorem shows 64 iterations always suffice)",
+         "  | fuel + 1, subtree_len, count_so_far => do"]
+    o += ["    " + l for l in a1.lines]
+    o += [f"    if {lhs} ≠ 0 then do",
+          f"      let s ← Arith.cdiv subtree_len {div}",
+          "      update_shrink_loop fuel s count_so_far",
+          "    else pure subtree_len", "",
+          "/-- the subtree length chosen by one iteration of the `while input.len() > CHUNK_LEN` loop of update -/",
+          "def update_subtree_len (input_len chunk_counter : Nat) : R Nat := do"]
+    o += ["  " + l for l in a2.lines]
+    o += [f"  update_shrink_loop 64 {iv} {cv}", ""]
+    return "\n".join(o), record_region
+
+
+def gen_regions():
+    A = "G3b-regions"
+    consts = rust_consts()
+    o = ["/- GENERATED by gen/extract.py from /repo/src/lib.rs, c/blake3.c -- do not edit -/",
+         "import B3.Arith", "import B3.Gen.Arith", "namespace B3.Gen", "open B3", "", "namespace Rs"]
+    params, body = find_fn(A, "src/lib.rs", r"fn\s+update_with_join\s*<")
+    txt, _ = translate_shrink_region(A, "Hasher::update_with_join", strip_comments(body), consts, False,
+                                     [("input.len()", "input_len"), ("self.chunk_state.chunk_counter", "chunk_counter")], "largest_power_of_two_leq")
+    o.append(txt)
+    # OutputReader: position / set_position / Seek::seek
+    params, body = find_fn(A, "src/lib.rs", r"pub\s+fn\s+position\s*\(\s*&self\s*\)\s*->\s*u64")
+    b = strip_comments(body).replace("self.inner.counter", "counter").replace("self.position_within_block", "position_within_block")
+    o.append(translate_arith_fn(A, "reader_position", "(counter position_within_block : Nat)", b, consts))
+    params, body = find_fn(A, "src/lib.rs", r"pub\s+fn\s+set_position\s*\(\s*&mut\s+self\s*,\s*position\s*:\s*u64\s*\)")
+    b = strip_comments(body)
+    m = re.match(r"^\s*self\.position_within_block\s*=\s*\((.+)\)\s*as\s+u8\s*;\s*self\.inner\.counter\s*=\s*(.+?)\s*;\s*$", b, re.S)
+    if not m:
+        raise TranslationBroken(A, "OutputReader::set_position: expected two assignments (position_within_block as u8, inner.counter)")
+    try:
+        a = Anf(consts)
+        pw = a.go(parse_expr(m.group(1)))
+        ct = a.go(parse_expr(m.group(2)))
+    except Exception as ex:
+        raise TranslationBroken(A, f"OutputReader::set_position: {ex}")
+    o += ["/-- `set_position`: the new (counter, position_within_block); the `as u8` cast truncates -/",
+          "def reader_set_position (position : Nat) : R (Nat × Nat) := do"] + ["  " + l for l in a.lines] + [f"  pure ({ct}, {pw} % 256)", ""]
+    # Seek::seek
+    params, body = find_fn(A, "src/lib.rs", r"fn\s+seek\s*\(\s*&mut\s+self\s*,\s*pos\s*:\s*std::io::SeekFrom\s*\)")
+    b = strip_comments(body)
+    m = re.match(r"^\s*let\s+max_position\s*=\s*u64::max_value\(\)\s*as\s+i128\s*;\s*let\s+target_position\s*:\s*i128\s*=\s*match\s+pos\s*\{(.*)\}\s*;\s*"
+                 r"if\s+target_position\s*<\s*0\s*\{\s*return\s+Err\(.*?\)\s*;\s*\}\s*"
+                 r"self\.set_position\(\s*cmp::min\(\s*target_position\s*,\s*max_position\s*\)\s*as\s+u64\s*\)\s*;\s*Ok\(\s*self\.position\(\)\s*\)\s*$", b, re.S)
+    if not m:
+        raise TranslationBroken(A, "Seek::seek: body is not `max_position (i128); target_position: i128 = match pos {..}; if < 0 Err; set_position(min(..) as u64); Ok(position())`")
+    arms_txt = m.group(1)
+    arms = {}
+    for am in re.finditer(r"std::io::SeekFrom::(Start|Current|End)\(\s*(\w+)\s*\)\s*=>\s*(\{.*?\}|[^,{]+),?", arms_txt, re.S):
+        arms[am.group(1)] = (am.group(2), am.group(3).strip())
+    if set(arms) != {"Start", "Current", "End"}:
+        raise TranslationBroken(A, f"Seek::seek: expected arms Start, Current, End; found {sorted(arms)}")
+
+    def arm_expr(kind):
+        var, e = arms[kind]
+        if e.startswith("{"):
+            if re.match(r"^\{\s*return\s+Err\(.*\)\s*;\s*\}$", e, re.S):
+                return "none"
+            raise TranslationBroken(A, f"Seek::seek: arm {kind} has an unexpected block")
+        e = e.replace("self.position()", "position")
+        # i128 arithmetic on u64/i64 operands cannot overflow; translate `a as i128 + b as i128` to Int addition
+        toks = [t.strip() for t in e.split("+")]
+        outs = []
+        for t in toks:
+            mm = re.match(r"^(\w+)\s+as\s+i128$", t)
+            if not mm:
+                raise TranslationBroken(A, f"Seek::seek: arm {kind}: term {t!r} is not `<name> as i128`")
+            nm = mm.group(1)
+            if nm == var:
+                outs.append("x" if kind != "Start" else "(Int.ofNat x)")
+            elif nm == "position":
+                outs.append("(Int.ofNat position)")
+            else:
+                raise TranslationBroken(A, f"Seek::seek: arm {kind}: unknown name {nm}")
+        return "some (" + " + ".join(outs) + ")"
+
+    o += ["inductive SeekFrom where", "  | start (x : Nat)", "  | current (x : Int)", "  | «end» (x : Int)", "",
+          "/-- `impl Seek for OutputReader`: the target position as an exact integer (`none` = the arm returns Err) -/",
+          "def seek_target (position : Nat) : SeekFrom → Option Int",
+          f"  | .start x => {arm_expr('Start')}", f"  | .current x => {arm_expr('Current')}", f"  | .end x => {arm_expr('End')}", "",
+          "/-- the position passed to `set_position` (`none` = Err, reader unchanged) -/",
+          "def seek (position : Nat) (pos : SeekFrom) : Option Nat :=",
+          "  match seek_target position pos with", "  | none => none",
+          "  | some target => if target < 0 then none else some (min target ((2 : Int) ^ 64 - 1)).toNat", ""]
+    o.append("end Rs\n")
+    o.append("namespace C")
+    cconsts = {"BLAKE3_CHUNK_LEN": c_define_int(A, "c/blake3.h", "BLAKE3_CHUNK_LEN")}
+    params, body = find_fn(A, "c/blake3.c", r"INLINE\s+void\s+blake3_hasher_update_base\s*\(|void\s+blake3_hasher_update_base\s*\(")
+    txt, _ = translate_shrink_region(A, "blake3_hasher_update_base", strip_comments(body).replace("(uint64_t)", ""), cconsts, True,
+                                     [("self->chunk.chunk_counter", "chunk_counter")], "round_down_to_power_of_2")
+    o.append(txt)
+    o.append("end C\n")
+    o.append("end B3.Gen")
+    return "\n".join(o) + "\n"
 
 # ------------------------------------------------------------------------------------------------
 # G5: published test vectors
@@ -1035,6 +1168,7 @@ ARTEFACTS = [
     ("Consts.lean", "G1-consts", gen_consts),
     ("RsPortable.lean", "G2-rs-portable", gen_rs_portable),
     ("Arith.lean", "G3-arith", gen_arith),
+    ("Regions.lean", "G3b-regions", gen_regions),
     ("RefCompress.lean", "G2-ref-compress", gen_ref_compress),
     ("CPortable.lean", "G2-c-portable", gen_c_portable),
     ("Vectors.lean", "G5-vectors", gen_vectors),
